@@ -65,6 +65,27 @@ var c03Recipes = []c03Recipe{
 		},
 	},
 	{
+		name: "consolidate", site: "internal/ast/schema.go:Schemas.Consolidate",
+		run: func(k int) *c03Obs {
+			schemas := ast.Schemas{}
+			for _, p := range c03Letters(k) {
+				for _, o := range []string{"O", "P"} {
+					s := ast.NewSchema("pkg"+p, ast.SchemaMeta{})
+					s.AddObject(ast.NewObject("pkg"+p, o, ast.String()))
+					schemas = append(schemas, s)
+				}
+			}
+			obs := newObs()
+			res, err := schemas.Consolidate()
+			if err != nil {
+				obs.err = err.Error()
+				return obs
+			}
+			obs.put("schemas.json", c03JSON(res))
+			return obs
+		},
+	},
+	{
 		// keys that differ only in letter case match the same field (Matches is EqualFold)
 		name: "fields-set-default", site: "internal/ast/compiler/fields_set_default.go:FieldsSetDefault.processObject",
 		run: func(k int) *c03Obs {
